@@ -103,12 +103,27 @@ def tbs (version : Nat) (curve : Nat) (name : Bytes) (networks unsafeNetworks : 
     groups := groups, isCA := false, notBefore := notBefore, notAfter := notAfter, issuer := "", publicKey := pub,
     signature := [] }
 
+/-- the -networks value `signCert` works with (deprecated -ip pulled up when -networks is empty). -/
+def effNetworks (f : Flags) : Bytes := if f.networks.isEmpty ∧ !f.ip.isEmpty then f.ip else f.networks
+/-- the -unsafe-networks value `signCert` works with (deprecated -subnets pulled up). -/
+def effUnsafe (f : Flags) : Bytes := if f.unsafeNetworks.isEmpty ∧ !f.subnets.isEmpty then f.subnets else f.unsafeNetworks
+
+/-- the public key to certify: the -in-pub file (`UnmarshalPublicKeyFromPEM`, curve compared with the CA key's) or a
+fresh key pair. -/
+def pickPub (env : Env) (f : Flags) (curve : Nat) : Except CliErr Bytes :=
+  match f.inPub with
+  | none => .ok (env.newPub curve)
+  | some data =>
+    match readKey CertKeys.unmarshalPublicKey data with
+    | some (.ok (k, pc)) => if pc ≠ curve then .error .inPubCurve else .ok k
+    | _ => .error .inPubParse
+
 /-- `signCert`: the certificates written to -out-crt, or the refusal. -/
 def signCert (E : SignEnv) (env : Env) (f : Flags) : Except CliErr (List Cert) :=
   if f.name.isEmpty then .error .nameRequired
   else if f.inPub.isSome ∧ f.outKeySet then .error .inPubAndOutKey
   else
-    let networks := if f.networks.isEmpty ∧ !f.ip.isEmpty then f.ip else f.networks
+    let networks := effNetworks f
     if networks.isEmpty then .error .networksRequired
     else if f.version ≠ 0 ∧ f.version ≠ 1 ∧ f.version ≠ 2 then .error .badVersion
     else
@@ -128,19 +143,12 @@ def signCert (E : SignEnv) (env : Env) (f : Flags) : Except CliErr (List Cert) :
             match splitNets env.parsePrefix (flagItems networks) with
             | none => .error .badNetworks
             | some (v4, v6) =>
-              let unsafeNetworks := if f.unsafeNetworks.isEmpty ∧ !f.subnets.isEmpty then f.subnets else f.unsafeNetworks
+              let unsafeNetworks := effUnsafe f
               match splitNets env.parsePrefix (flagItems unsafeNetworks) with
               | none => .error .badUnsafeNetworks
               | some (u4, u6) =>
                 let groups := parseGroups f.groups
-                let pub : Except CliErr Bytes :=
-                  match f.inPub with
-                  | none => .ok (env.newPub curve)
-                  | some data =>
-                    match readKey CertKeys.unmarshalPublicKey data with
-                    | some (.ok (k, pc)) => if pc ≠ curve then .error .inPubCurve else .ok k
-                    | _ => .error .inPubParse
-                match pub with
+                match pickPub env f curve with
                 | .error e => .error e
                 | .ok pub =>
                   let notBefore := env.now
